@@ -158,7 +158,7 @@ def shard_main(pid: str, tier: str, seed: int, shard: int, nshards: int, out: st
     import faulthandler  # noqa: PLC0415
 
     mod = load_prop(pid)
-    wd = getattr(mod, "SHARD_WATCHDOG", {"quick": 600, "thorough": 3600})[tier]
+    wd = getattr(mod, "SHARD_WATCHDOG", {"quick": 1500, "thorough": 10800})[tier]
     faulthandler.dump_traceback_later(wd, exit=True)
     res = {"cases": [], "error": None}
     tmp = Path(tempfile.mkdtemp(prefix=f"verif_{pid}_"))
@@ -220,7 +220,7 @@ def run_property(pid: str, tier: str, seed: int, replay: str | None = None) -> i
         return replay_case(mod, pid, replay)
 
     nshards = int(getattr(mod, "SHARDS", {"quick": NCPU, "thorough": NCPU})[tier])
-    timeout = getattr(mod, "SHARD_WATCHDOG", {"quick": 600, "thorough": 3600})[tier] + 30
+    timeout = getattr(mod, "SHARD_WATCHDOG", {"quick": 1500, "thorough": 10800})[tier] + 30
     tmp = Path(tempfile.mkdtemp(prefix=f"verif_run_{pid}_"))
     procs = []
     for s in range(nshards):
